@@ -1,6 +1,6 @@
 PROP = {
     "id": "C08",
-    "tie2": ["Tie2Hsms", "Tie2Responder"],
+    "tie2": ["Tie2Hsms", "Tie2Responder", "Tie2ResponderModel"],
     "harness": "c08",
     "driver": "c08",
     "n_quick": 300,
@@ -12,6 +12,7 @@ PROP = {
         "harness/cmd/c08/oracle.go: the E37 table re-stated in Go from the property text (the implementation-level oracle; no reference to the model)",
     ],
     "assumptions": [
+        "chain for the code classes: source -> translator v2 (Gen2.v, coqc-checked: tie_hsmsss_responder_step) -> expect_dispatch -> Properties/Tie2ResponderModel.v (C08_dispatch_is_respond / C08_source_dispatch_is_respond: the call log projects to respond, in every environment that answers what the model state says) -> respond -> C08_all_sequences -> E37 table. Remaining hand-modelled step: the two classes decided inside the engine (data while Selected = DeliverOwnedFrame/checkSessionID/RouteReply/RouteData; a response hitting an open transaction = reply registry + runSelectProcedure's reaction): for these the theorems state exactly what the dispatcher logs, and respond's outcome is tied by the e2e differential only",
         "atomic action 'the TCP-up commit (NotConnected -> NotSelected) happens before the generation's first frame can be dispatched' and 'the Selected commit happens before the peer can hold Select.rsp': now EXERCISED by the held-commit runs (hook hsms/verif_export_runtime.go: the harness parks the transport inside TCPUp for 60 ms, resp. delays CommitSelected, while the peer's Select.req + data + barrier are already written in one burst; passive with/without pipelined data and with a second connection during the hold, active with simultaneous select); the exact differential runs on the outcome",
         "atomicity: one received frame = one step; CommitSelected / CommitSelectLost are synchronous on the recv goroutine; a control transaction closes in the step in which its response is routed (the waiter's deregistration runs on another goroutine shortly after: the harness fences it with an orphan-response probe and records only the probe that was answered)",
         "the supervisor does not move the logical state by itself while the link is up (T7 / linktest / Close aside, which the quiet link excludes): this is C05's theorem; before repo commit 737422e the e2e pass reproduced its violation with protocol-visible consequences (finding C08-deselect-undone, now fixed) and still recognises it by name",
